@@ -14,7 +14,7 @@ TYPES = ['Mean', 'Variance', 'Skewness', 'Kurtosis', 'Min', 'Max', 'Moments4', '
 PROBES = ['ProbeMean', 'ProbeVariance', 'ProbeSkewness', 'ProbeKurtosis', 'ProbeMin', 'ProbeMax', 'ProbeMoments4', 'ProbeM6']
 RULE = ('(1) result monitor: f64 and &f64 parallel iterators are collected into Mean, Variance, Skewness, Kurtosis, Min, Max, '
         'Moments4 and a define_moments! order-6 type inside explicit ThreadPoolBuilder pools of 1,2,3,4,8,16 threads, with '
-        'with_min_len / with_max_len in {unset,1,2,3,7,64,n}, with a seeded map stage that yields / spins on a pseudo-random subset '
+        'with_min_len / with_max_len in {unset,1,2,3,7,64,n}, optionally through a filter stage that drops a pseudo-random third of the items (so that fold leaves can be empty), with a seeded map stage that yields / spins on a pseudo-random subset '
         'of items (delay injection between the items of a fold), each configuration repeated; len must be exact, min / max exact, '
         'every other statistic inside the section-2 envelope of the exact statistics. (2) schedule monitor: Probe<T> wraps the real '
         'estimator and is given the crate\'s own exported impl_from_par_iterator!; it checks online that every fold leaf absorbs a '
@@ -25,6 +25,20 @@ RULE = ('(1) result monitor: f64 and &f64 parallel iterators are collected into 
         'mode, recorded tree) executions with n >= 2.')
 ASSUME = ['CPython int/Fraction arithmetic is exact', 'driver faithfully prints accessor bit patterns',
           'envelope constants of DESIGN.md section 2', 'the schedules observed are those rayon (and Miri) actually produced, not all schedules']
+
+
+M64 = (1 << 64) - 1
+
+
+def keep(x, seed):
+    """Mirror of harness/src/est.rs::keep - the filter predicate of the P op."""
+    if seed == 0:
+        return True
+    h = common.bits(x) ^ ((seed * 0x9E3779B97F4A7C15) & M64)
+    h ^= h >> 33
+    h = (h * 0xff51afd7ed558ccd) & M64
+    h ^= h >> 33
+    return h % 3 != 0
 
 
 # ------------------------------------------------------------------ recorded trees
@@ -168,7 +182,8 @@ def configs(rng, n):
         lo, hi = hi, lo
     mode = rng.choice(['v', 'r'])
     dseed = rng.choice([0, rng.randint(1, 10 ** 6), rng.randint(1, 10 ** 6)])
-    return threads, lo, hi, mode, dseed
+    fseed = rng.choice([0, 0, rng.randint(1, 10 ** 6)])
+    return threads, lo, hi, mode, dseed, fseed
 
 
 def gen_data(rng, n, distinct=False):
@@ -196,20 +211,22 @@ def shard(desc):
                 typ = rng.choice(TYPES)
                 use_probe = rng.random() < 0.5 and n <= desc.get('probe_max_n', 20000)
                 t = ('Probe' + typ) if use_probe else typ
-                th, lo, hi, mode, dseed = configs(rng, n)
-                c = Case('%s-%d' % (desc['name'], k), t, meta={'threads': th, 'min_len': lo, 'max_len': hi, 'mode': mode, 'delay_seed': dseed, 'n': n})
+                th, lo, hi, mode, dseed, fseed = configs(rng, n)
+                c = Case('%s-%d' % (desc['name'], k), t, meta={'threads': th, 'min_len': lo, 'max_len': hi, 'mode': mode,
+                                                               'delay_seed': dseed, 'filter_seed': fseed, 'n': n})
                 k += 1
                 marks = []
                 for r_ in range(desc['repeats']):
-                    c.op('P', r_, th, lo, hi, mode, dseed, xs)
+                    c.op('P', r_, th, lo, hi, mode, dseed, fseed, xs)
                     marks.append(c.op('O', r_))
+                kept = [x for x in xs if keep(x, fseed)]
                 # sequential reference in the same case
                 c.op('N', 20)
-                if xs:
-                    c.op('A', 20, xs) if not use_probe else None
+                if kept and not use_probe:
+                    c.op('A', 20, kept)
                 seq_mark = c.op('O', 20) if not use_probe else None
                 cases.append(c)
-                plan.append((c, t, typ, xs, marks, seq_mark, id(xs)))
+                plan.append((c, t, typ, kept, marks, seq_mark, (id(xs), fseed)))
     logs = run_driver(desc['binary'], ''.join(c.text() for c in cases), timeout=3600)
     replays = []
     for c, t, typ, xs, marks, seq_mark, dkey in plan:
@@ -223,8 +240,11 @@ def shard(desc):
                               '%s: op %d -> %s %s (config %r)' % (t, r.op, r.kind, r.rest, c.meta), c, variant)
         by_op = {r.op: r for r in recs if r.kind == 'o'}
         n = len(xs)
-        ctx = '(n=%d, %d threads, min_len=%s max_len=%s, by %s, delay seed %d)' % (
-            n, c.meta['threads'], c.meta['min_len'] or '-', c.meta['max_len'] or '-', 'reference' if c.meta['mode'] == 'r' else 'value', c.meta['delay_seed'])
+        ctx = '(n=%d%s, %d threads, min_len=%s max_len=%s, by %s, delay seed %d)' % (
+            n, (' kept of %d by a filter stage' % c.meta['n']) if c.meta['filter_seed'] else '', c.meta['threads'],
+            c.meta['min_len'] or '-', c.meta['max_len'] or '-', 'reference' if c.meta['mode'] == 'r' else 'value', c.meta['delay_seed'])
+        if c.meta['filter_seed']:
+            res.count('collects_with_filter_stage', len(marks))
         results = set()
         for opi in marks:
             r = by_op.get(opi)
@@ -235,7 +255,7 @@ def shard(desc):
             res.count('collects_by_%s' % ('ref' if c.meta['mode'] == 'r' else 'value'))
             if c.meta['delay_seed']:
                 res.count('collects_with_delay_injection')
-            nt = judge_result(t, xs, r.kv, res, c, variant, ctx, memo, (dkey,))
+            nt = judge_result(t, xs, r.kv, res, c, variant, ctx, memo, dkey)
             results.add(tuple(v for k_, v in sorted(r.kv.items()) if not k_.startswith('probe_')))
             if t.startswith('Probe'):
                 kv = r.kv
@@ -266,6 +286,8 @@ def shard(desc):
                     res.violation(PROP, 'probe:exactly-once', 'fold leaves %r do not add up to %d items %s' % (lv[:12], n, ctx), c, variant)
                     continue
                 sh = shape(tree)
+                if '(E E)' in sh:
+                    res.count('trees_with_empty_into_empty_merge')
                 res.add_set('distinct_merge_trees', (n, sh))
                 res.count('leaves_total', len(lv))
                 if n >= 2:
@@ -288,7 +310,7 @@ def shard(desc):
         if len(results) > 1:
             res.count('configs_with_schedule_dependent_rounding')
         if seq_mark is not None and seq_mark in by_op:
-            judge_result(typ, xs, by_op[seq_mark].kv, res, c, variant, '(sequential reference) ' + ctx, memo, (dkey,))
+            judge_result(typ, xs, by_op[seq_mark].kv, res, c, variant, '(sequential reference) ' + ctx, memo, dkey)
     # phase 2: sequential replay of recorded trees must be bit-identical
     if replays:
         rlogs = run_driver(desc['binary'], ''.join(rc.text() for rc, *_ in replays), timeout=3600)
@@ -321,9 +343,10 @@ def miri_leg(seed, nseeds, res):
             lo, hi = rng.choice([(0, 0), (1, 1), (0, 3), (2, 7)])
             c = Case('m-%d' % k, t, meta={'threads': th, 'min_len': lo, 'max_len': hi, 'mode': 'v', 'delay_seed': 7, 'n': n})
             k += 1
-            c.op('P', 0, th, lo, hi, rng.choice(['v', 'r']), 7, xs)
+            fseed = rng.choice([0, 5])
+            c.op('P', 0, th, lo, hi, rng.choice(['v', 'r']), 7, fseed, xs)
             c.op('O', 0)
-            cases.append((c, t, typ, xs))
+            cases.append((c, t, typ, [x for x in xs if keep(x, fseed)]))
     text = ''.join(c.text() for c, *_ in cases)
     logs, report = common.run_miri(text, seeds=(0, nseeds), timeout=7200, tag='c19')
     if report is not None:
@@ -415,6 +438,7 @@ def run(tier, seed):
     except common.Inconclusive as e:
         total.inconclusive.append(str(e))
     need = {'parallel_collects': 300, 'probe_collects': 100, 'tree_replays': 50, 'collects_with_multiple_leaves': 50,
+            'collects_with_filter_stage': 50, 'trees_with_empty_into_empty_merge': 5,
             'collects_with_delay_injection': 50, 'collects_by_ref': 50, 'collects_by_value': 50, 'distinct_merge_trees': 20}
     if tier == 'thorough':
         need['miri_collects'] = 50
